@@ -10,7 +10,7 @@ import core, parsecase, universe, shellrun
 
 PROP_FILE = 'props/C19.v'
 
-TRACKED = ['\\unka', '\\unkb', '\\unkc', '\\unkz', '\\mun', '\\muo', 'my block',
+TRACKED = ['\\ulatea', '\\ulateb', '\\unkd', '\\unka', '\\unkb', '\\unkc', '\\unkz', '\\mun', '\\muo', 'my block',
            'blockx', 'my  env', '\\foo']
 
 
